@@ -381,10 +381,15 @@ fn sub_via_client(name: &str) -> String {
         };
         let client = async {
             let (c, mut ev) = Client::connect(cl).await.expect("connect");
-            let e = ev.next().await;
+            // an event that never comes must not hang the harness: one second of real time, then `HANG`
+            let e = tokio::time::timeout(std::time::Duration::from_secs(1), ev.next()).await;
             (c, e)
         };
         let (_sv, (_c, e)) = tokio::join!(server, client);
+        let e = match e {
+            Ok(e) => e,
+            Err(_) => return "HANG".to_string(),
+        };
         match e {
             Some(ConnectionEvent::SubsystemChange(s)) => {
                 let d = format!("{:?}", s);
